@@ -101,7 +101,7 @@ func vpChangeViewsOK(d *DBFT[vhash]) bool {
 			if p.newView <= d.ViewNumber {
 				ok = false
 			}
-			if i == d.MyIndex && (p.newView != d.ViewNumber+1 || p.view != d.ViewNumber) {
+			if i == d.MyIndex && !d.Context.WatchOnly() && (p.newView != d.ViewNumber+1 || p.view != d.ViewNumber) {
 				ok = false
 			}
 		}
